@@ -156,3 +156,45 @@ package cache
 //@   callsite releaseEntry: [C20,C07:the-entry-that-left-the-cache] arg0 == value
 //@   ensures [C20:released-once] nRel == 1
 
+// what is queued for the redis writer: live pooled copies of key and value
+//@ chaninv redisSetOp: v.k != nil && v.v != nil && !sameObj(v.k, v.v)
+
+// setLoop (the redis writer goroutine): every queued write is sent as one SET of exactly the queued key and value,
+// expiring after exactly the queued number of milliseconds, with NX exactly when the entry must not overwrite
+// (negative answers); the two pooled copies are given back once each after the command - whether or not it
+// succeeded - and never before.
+//@ func (c *RedisCache) setLoop()
+//@   props C08 C07 C20
+//@   requires c != nil && redisOK(c) && c.setTotal != nil && c.setLatency != nil
+//@   noterm
+//@   ghost nBS int = 0
+//@   ghost nNx int = 0
+//@   ghost nPx int = 0
+//@   ghost nDo int = 0
+//@   ghost nRelK int = 0
+//@   ghost nRelV int = 0
+// (the per-write counters restart when a write is taken from the queue - the first thing done with it is time.Now())
+//@   aftercall Now: nBS = 0
+//@   aftercall Now: nNx = 0
+//@   aftercall Now: nPx = 0
+//@   aftercall Now: nDo = 0
+//@   aftercall Now: nRelK = 0
+//@   aftercall Now: nRelV = 0
+//@   oncall BinaryString: nBS = nBS + 1
+//@   oncall Nx?: nNx = nNx + 1
+//@   oncall PxMilliseconds: nPx = nPx + 1
+//@   oncall Do: nDo = nDo + 1
+//@   oncall ReleaseBuf: nRelK = nRelK + (arg0 == op.k ? 1 : 0)
+//@   oncall ReleaseBuf: nRelV = nRelV + (arg0 == op.v && !(arg0 == op.k) ? 1 : 0)
+//@   modifies *
+//@   callsite BinaryString: [C07:key-then-value-of-the-queued-write] (nBS == 0 ? arg0 == op.k : arg0 == op.v) && nBS <= 1
+//@   callsite Nx?: [C08:nx-only-for-entries-that-must-not-overwrite] op.nx && nNx == 0
+//@   callsite PxMilliseconds: [C08:expires-after-the-queued-time-left] arg1 == op.ttlMs && nBS == 2 && nNx == (op.nx ? 1 : 0)
+//@   callsite Do: [C08,C07:one-command-per-queued-write] nDo == 0 && nPx == 1 && arg0 == c.client
+//@   callsite ReleaseBuf: [C20:pooled-copies-given-back-after-the-command] nDo == 1 && (arg0 == op.k || arg0 == op.v)
+//@   callsite Inc: [C20:both-copies-given-back-once-on-success] nRelK == 1 && nRelV == 1
+//@   callsite Msg: [C20:both-copies-given-back-once-on-failure] nRelK == 1 && nRelV == 1
+//@   loop 1:
+//@     modifies *
+//@     invariant c != nil && redisOK(c) && c.setTotal != nil && c.setLatency != nil
+
